@@ -60,6 +60,7 @@ class Sim:
         self.sig: List[str] = []
         self.ephemeral = 40000
         self.next_tag: Any = None
+        self.current_owner: Any = None
         self.iteration_hooks: List[Callable[[], None]] = []
         self.wall_watchers: List[Callable[[], None]] = []
         self.app_reads: List[tuple] = []
@@ -223,6 +224,7 @@ class FakeSocket:
         self.local: Optional[Tuple[str, int]] = None
         self.peer: Optional[Tuple[str, int]] = None
         self.owner = "app"       # "app" sockets are created by code under test
+        self.owner_id = sim.current_owner   # which simulated actor's call is in progress (e.g. ("bridge", 1))
         self.tag = sim.next_tag  # who (which simulated client) asked for this socket
         sim.next_tag = None
         if self.tag is not None:
@@ -655,12 +657,15 @@ class SimNet:
         def arrive():
             holders = self.udp_ports.get(port, [])
             target = holders[-1] if holders else None
+            overflow = False
             if target is not None and len(target.rxq) >= self.rxq_limit:
                 sim.fire("rxq_overflow")
                 sim.rec("udp", "overflow", port, tag)
                 target = None
+                overflow = True
             rec = {"tag": tag, "payload": payload, "port": port, "fd": target.fd if target else None,
-                   "owner": target.owner if target else None, "mono_us": sim.mono_us, "seq": sim.seq,
+                   "owner": target.owner if target else None, "owner_id": target.owner_id if target else None,
+                   "mono_us": sim.mono_us, "seq": sim.seq, "overflow": overflow,
                    "order": len(self.arrival_order)}
             self.arrivals.setdefault(port, []).append(rec)
             self.arrival_order.append(rec)
